@@ -482,7 +482,11 @@ func (pc ParseContext) compileBinop(ctx context.Context, b ast.Branch, c ast.Chi
 	}
 	for i, arg := range args[1:] {
 		op := ops[i].One("").(ast.Leaf).Scanner()
-		f := binops[op.String()]
+		f, has := binops[op.String()]
+		if !has {
+			// the grammar accepts a lone ~ where ~~ is meant
+			return nil, fmt.Errorf("unknown operator %s: %s", op.String(), op.Context(parser.DefaultLimit))
+		}
 		rhs, err := pc.CompileExpr(ctx, arg.(ast.Branch))
 		if err != nil {
 			return nil, err
